@@ -1,6 +1,7 @@
 """C11 — covenant cost is bounded by what is paid for: terminates within its weight."""
 from rules.engine import mir, q
 from rules.engine.q import sig, sigv, force
+from rules.engine.sccp import V
 
 EXPLANATION = (
     "Structural premises of 'executed steps ≤ weight' and of 'bounded work to weigh and run'. R1 every opcode costs ≥ 1: the lower bound of each arm of opcodes_car_weight "
@@ -178,7 +179,7 @@ def r4_nesting(ctx):
     pushes = [(bi, e) for bi, e in q.call_exprs(st, "Vec::push") if "LoopState::LoopState{" in sig(e)]
     r.check(len(pushes) == 1, "push", "one loop-state push", "%d loop-state pushes" % len(pushes))
     LAST = "core::slice::<impl [T]>::last(^self.loop_state)"
-    atoms = [a for a in q.cmp_atoms(st) if ("(%s as Some).0.end" % LAST) in a[1] and "Loop).1" in a[1]]
+    atoms = [a for a in q.cmp_atoms(st) if ("try(%s).end" % LAST) in a[1] and "Loop).1" in a[1]]
     r.check(len(atoms) == 1, "check", "the new end is compared with the enclosing loop's end", "nesting comparisons: %s" % [a[1][:100] for a in atoms])
     if pushes and atoms:
         e, c, bi = atoms[0]
@@ -190,6 +191,7 @@ def r4_nesting(ctx):
         tbl = {e: 1 if truth else 0}
         for b2, x in has:
             tbl[("discr", x)] = 1
+            tbl[x] = V(1)
         f = force(st, tbl)
         r.check(pushes[0][0] not in f.reach, "exceeds=>fail", "a loop reaching beyond its enclosing loop is not started", "a loop whose end exceeds the enclosing loop's end is still pushed", st.where(bi))
         pe = pushes[0][1][2][1]
